@@ -141,6 +141,8 @@ func c01(tier string) int {
 	// Twin leg: two IDs configured with one origin line - each ID has its own
 	// append-only history whatever is written under the other.
 	twinLeg(run, "C01")
+	// Upgrade leg: started on a database the earlier release wrote.
+	legacyDBLeg(run, "C01")
 	for _, k := range []string{"first-use", "growth", "refresh"} {
 		if run.HistGet("accepted_kinds", k) == 0 {
 			run.Vacuous("no accepted %s step was explored", k)
